@@ -418,21 +418,21 @@ class MultipartRelatedConsolidator(ConsolidatorBase):
                 flag_str += "+"  # Show positive sign
             elif " " in flags:
                 flag_str += " "  # Space before positive numbers
-            if "0" in flags:
-                flag_str += "0"  # Zero padding
+            if "0" in flags and "-" not in flags:
+                flag_str += "0"  # Zero padding (ignored by printf when left-aligned)
 
-            # Build width and precision if they exist
             width_str = width if width else ""
-            precision_str = f".{precision}" if precision else ""
 
-            # Handle cases like "%6.6d", which should be converted to "{:06d}"
-            if precision and width:
-                flag_str = "0"
-                precision_str = ""
-                width_str = str(max(precision, width))
+            # A precision is the minimum number of digits, i.e. sign-aware zero padding:
+            # "%6.6d" -> "{:06d}", "%+6.6d" -> "{:+07d}", "%.5d" -> "{:05d}"
+            if precision:
+                sign_str = "+" if "+" in flags else " " if " " in flags else ""
+                if int(precision) >= int(width or 0):
+                    width_str = str(int(precision) + len(sign_str))
+                flag_str = f"{sign_str}0"
 
             # Construct the new-style format specifier
-            return f"{{:{flag_str}{width_str}{precision_str}{type_char}}}"
+            return f"{{:{flag_str}{width_str}{type_char}}}"
 
         self.template = (
             self._sres_parameters["template"]
